@@ -68,26 +68,47 @@ func (o recOrca) rec(t common.RequestType, r common.Request) {
 	*o.log = append(*o.log, recorded{t, cloneReq(r)})
 }
 
-func (o recOrca) Set(r common.SetRequest) error     { o.rec(common.RequestSet, r); return o.Orca.Set(r) }
-func (o recOrca) Add(r common.SetRequest) error     { o.rec(common.RequestAdd, r); return o.Orca.Add(r) }
-func (o recOrca) Replace(r common.SetRequest) error { o.rec(common.RequestReplace, r); return o.Orca.Replace(r) }
-func (o recOrca) Append(r common.SetRequest) error  { o.rec(common.RequestAppend, r); return o.Orca.Append(r) }
-func (o recOrca) Prepend(r common.SetRequest) error { o.rec(common.RequestPrepend, r); return o.Orca.Prepend(r) }
+func (o recOrca) Set(r common.SetRequest) error { o.rec(common.RequestSet, r); return o.Orca.Set(r) }
+func (o recOrca) Add(r common.SetRequest) error { o.rec(common.RequestAdd, r); return o.Orca.Add(r) }
+func (o recOrca) Replace(r common.SetRequest) error {
+	o.rec(common.RequestReplace, r)
+	return o.Orca.Replace(r)
+}
+func (o recOrca) Append(r common.SetRequest) error {
+	o.rec(common.RequestAppend, r)
+	return o.Orca.Append(r)
+}
+func (o recOrca) Prepend(r common.SetRequest) error {
+	o.rec(common.RequestPrepend, r)
+	return o.Orca.Prepend(r)
+}
 func (o recOrca) Delete(r common.DeleteRequest) error {
 	o.rec(common.RequestDelete, r)
 	return o.Orca.Delete(r)
 }
-func (o recOrca) Touch(r common.TouchRequest) error { o.rec(common.RequestTouch, r); return o.Orca.Touch(r) }
-func (o recOrca) Get(r common.GetRequest) error     { o.rec(common.RequestGet, r); return o.Orca.Get(r) }
-func (o recOrca) GetE(r common.GetRequest) error    { o.rec(common.RequestGetE, r); return o.Orca.GetE(r) }
-func (o recOrca) Gat(r common.GATRequest) error     { o.rec(common.RequestGat, r); return o.Orca.Gat(r) }
-func (o recOrca) Noop(r common.NoopRequest) error   { o.rec(common.RequestNoop, r); return o.Orca.Noop(r) }
-func (o recOrca) Quit(r common.QuitRequest) error   { o.rec(common.RequestQuit, r); return o.Orca.Quit(r) }
+func (o recOrca) Touch(r common.TouchRequest) error {
+	o.rec(common.RequestTouch, r)
+	return o.Orca.Touch(r)
+}
+func (o recOrca) Get(r common.GetRequest) error  { o.rec(common.RequestGet, r); return o.Orca.Get(r) }
+func (o recOrca) GetE(r common.GetRequest) error { o.rec(common.RequestGetE, r); return o.Orca.GetE(r) }
+func (o recOrca) Gat(r common.GATRequest) error  { o.rec(common.RequestGat, r); return o.Orca.Gat(r) }
+func (o recOrca) Noop(r common.NoopRequest) error {
+	o.rec(common.RequestNoop, r)
+	return o.Orca.Noop(r)
+}
+func (o recOrca) Quit(r common.QuitRequest) error {
+	o.rec(common.RequestQuit, r)
+	return o.Orca.Quit(r)
+}
 func (o recOrca) Version(r common.VersionRequest) error {
 	o.rec(common.RequestVersion, r)
 	return o.Orca.Version(r)
 }
-func (o recOrca) Stat(r common.StatRequest) error { o.rec(common.RequestStat, r); return o.Orca.Stat(r) }
+func (o recOrca) Stat(r common.StatRequest) error {
+	o.rec(common.RequestStat, r)
+	return o.Orca.Stat(r)
+}
 func (o recOrca) Unknown(r common.Request) error {
 	o.rec(common.RequestUnknown, r)
 	return o.Orca.Unknown(r)
